@@ -38,6 +38,7 @@ type SpecEnv struct {
 	allocBase string // objects with ref >= allocBase are "fresh"
 	point     *ssa.BasicBlock // program point at which source names are resolved
 	atEnd     bool
+	inOld     bool
 	depth     int
 	bound     map[string]bool
 }
@@ -170,7 +171,7 @@ func (env *SpecEnv) constTV(v constant.Value, t types.Type) TV {
 func (env *SpecEnv) lookupInAct(name string) (TV, bool) {
 	act := env.act
 	vc := env.vc
-	paramFirst := env.kind != "invariant" && env.kind != "site"
+	paramFirst := (env.kind != "invariant" && env.kind != "site") || env.inOld
 	tryParam := func() (TV, bool) {
 		for a := act; a != nil; a = a.parent {
 			for _, p := range a.fn.Params {
@@ -383,7 +384,34 @@ func (env *SpecEnv) evalTV(e ast.Expr) TV {
 	case *ast.CallExpr:
 		return env.evalCall(x)
 	case *ast.CompositeLit:
-		specErr("composite literals are not supported in contracts")
+		t := env.resolveType(x.Type)
+		if t == nil {
+			specErr("unknown type in composite literal")
+		}
+		st, ok := t.Underlying().(*types.Struct)
+		if !ok {
+			specErr("only struct literals are supported in contracts")
+		}
+		sv := zeroVal(t).(StructV)
+		for _, el := range x.Elts {
+			kv, ok := el.(*ast.KeyValueExpr)
+			if !ok {
+				specErr("struct literals need field names")
+			}
+			name := kv.Key.(*ast.Ident).Name
+			found := false
+			for i := 0; i < st.NumFields(); i++ {
+				if st.Field(i).Name() == name {
+					fv := env.coerce(env.evalTV(kv.Value), st.Field(i).Type())
+					sv.f[i] = fv.v
+					found = true
+				}
+			}
+			if !found {
+				specErr("no field %s in %v", name, t)
+			}
+		}
+		return TV{sv, t}
 	}
 	specErr("unsupported expression %T", e)
 	return TV{}
@@ -497,7 +525,7 @@ func (env *SpecEnv) evalIndex(x *ast.IndexExpr) TV {
 		et := base.t.Underlying().(*types.Slice).Elem()
 		idx := env.evalTV(x.Index).v.(IntV).t
 		w := width(et)
-		return TV{env.loadPure(PtrV{b.ref, fmt.Sprintf("(* (+ %s %s) %d)", b.off, idx, w)}, et), et}
+		return TV{env.loadPure(PtrV{b.ref, env.vc.elemIdx(b.off, idx, w)}, et), et}
 	case MapV:
 		mt := base.t.Underlying().(*types.Map)
 		k := env.evalTV(x.Index)
@@ -676,9 +704,7 @@ func (env *SpecEnv) evalCall(x *ast.CallExpr) TV {
 			specErr("old() not available here")
 		}
 		oe := env.withState(env.old)
-		if env.kind == "ensures" || env.kind == "callsite" {
-			// parameters keep their entry values either way
-		}
+		oe.inOld = true // parameters denote their entry values (their cells do not exist in the entry state)
 		return oe.evalTV(x.Args[0])
 	case "len":
 		v := env.evalTV(x.Args[0])
@@ -796,7 +822,11 @@ func (env *SpecEnv) evalCall(x *ast.CallExpr) TV {
 		for k := range env.bound {
 			sub.bound[k] = true
 		}
-		body := sub.evalBoolExpr(x.Args[3])
+		vc.pure++
+		body := func() string {
+			defer func() { vc.pure-- }()
+			return sub.evalBoolExpr(x.Args[3])
+		}()
 		rng := fmt.Sprintf("(and (<= %s %s) (< %s %s))", lo, bv, bv, hi)
 		if name == "forall" {
 			return boolTV(fmt.Sprintf("(forall ((%s Int)) (=> %s %s))", bv, rng, body))
